@@ -166,12 +166,13 @@ def run_generic(prop, tier, seed, t0):
         npaths += meta['paths']
         nval += sum(r['n'] for r in res)
         samples = samples or meta['samples']
+        extra_raw = meta.get('extra', {})
         for kk, vv in meta['counters'].items():
             counters[kk] = counters.get(kk, 0) + vv
             if kk.startswith('hist:'):
                 gens[kk[5:]] = gens.get(kk[5:], 0) + vv
         shutil.rmtree(meta['dir'], True)
-    meta = dict(counters=counters)
+    meta = dict(counters=counters, extra_raw=extra_raw)
     extra = dict(model_checking_runs=mcs, harness=dict(histories=nhist, events=nevents,
                  tlc_paths_replayed=npaths, hooks=work.hooks), validation=allnotes,
                  trace_spec=[v['trace']['module'] + '/' + v['trace']['cfg'] for v in variants],
@@ -179,6 +180,8 @@ def run_generic(prop, tier, seed, t0):
     post = P.get('post')
     if post:
         post(work, meta, extra)
+    for i, txt in enumerate(extra.pop('_violations', [])):
+        violations.append(vlib.save_witness(prop, 100 + i, [txt], 'json'))
     vlib.write_evidence(prop, tier, seed, t0, states, trans, nhist, samples, extra,
                         violations=len(violations), assumptions=P.get('assumptions', []),
                         exhaustive=False)
@@ -557,3 +560,40 @@ PROPS['C18'] = dict(
     assumptions=['TLC; finite sets are TLA+\'s native semantics, MapSet.tla adds nil-ness and the method effects',
                  'exhaustive over all histories of the modelled operations over a 2 (quick) / 3 (thorough) element universe with nil, empty and non-empty operands; seeded histories over 5 elements beyond',
                  'Pop may remove any member; the logged return value resolves the choice'])
+
+# --------------------------------------------------------------------------
+# C19 distinct.Counter
+
+def c19_post(work, meta, extra):
+    """Statistical clause: sample mean of Count over independent real-entropy
+    runs against the model's expectation E[Count] = number of distinct values
+    (the one-step unbiasedness identities are checked by TLC in CVM.tla).
+    Exact integer sums from the harness; tolerance 7 standard errors."""
+    import math
+    res = []
+    for st in meta.get('extra_raw', {}).get('stats', []):
+        n = st['runs']
+        tot, sq = int(st['sum']), int(st['sumsq'])
+        mean = tot / n
+        var = max(sq / n - mean * mean, 0.0) * n / (n - 1)
+        se = math.sqrt(var / n)
+        dev = abs(mean - st['distinct'])
+        ok = dev <= 7 * se + 1e-9 and st['maxlen'] <= st['size']
+        res.append(dict(size=st['size'], distinct=st['distinct'], repeat=st['repeat'], runs=n, mean=round(mean, 3),
+                        std_err=round(se, 4), deviation_in_std_errs=round(dev / se, 2) if se > 0 else 0.0,
+                        max_len_seen=st['maxlen'], ok=ok))
+    extra['statistical_conformance'] = res
+    extra['statistical_note'] = 'not decided by TLC: sample mean vs the expectation proved on the model; false-alarm probability per configuration ~ 2.6e-12 (7 sigma)'
+    bad = [r for r in res if not r['ok']]
+    if bad:
+        extra['_violations'] = [json.dumps(b) for b in bad]
+
+
+PROPS['C19'] = dict(
+    mc=[dict(module='CVMMC', cfg=('CVMMC_q.cfg', 'CVMMC_t.cfg'), emit=True, workers=8),
+        dict(module='CVMMC', cfg='CVMMC_f8.cfg', expect_violation=True, workers=2)],
+    trace=dict(module='CVMTrace', cfg='CVMTrace.cfg', stack='256m'),
+    post=c19_post,
+    assumptions=['TLC; CVM.tla as transcription of the property and of distinct.go (coin with P(keep)=2^-k, halving passes)',
+                 'hooks (build overlay): scripted random source, read access to k and the buffer; without them only the public observations are checked',
+                 'the convergence-of-the-mean clause is a statistical test of real-entropy runs against the expectation proved on the model (7 standard errors)'])
